@@ -259,6 +259,9 @@ fn sections_of(body: TokenStream, name: &str) -> Vec<(&'static str, Vec<&'static
 struct FnFinder<'a> {
     name: &'a str,
     fns: Vec<(String, Vec<(&'static str, Vec<&'static str>)>)>,
+    /// occurrences inside functions that are skipped (`#[cfg(test)]` / `#[cfg(feature = "verif-hooks")]`):
+    /// counted (they are among `uses`), not described
+    in_skipped: usize,
 }
 
 impl<'a> FnFinder<'a> {
@@ -279,12 +282,14 @@ impl<'ast, 'a> Visit<'ast> for FnFinder<'a> {
     }
     fn visit_item_fn(&mut self, f: &'ast syn::ItemFn) {
         if skip_attrs(&f.attrs) {
+            self.in_skipped += sections_of(f.block.to_token_stream(), self.name).len();
             return;
         }
         self.body(f.sig.ident.to_string(), &f.block);
     }
     fn visit_impl_item_fn(&mut self, f: &'ast syn::ImplItemFn) {
         if skip_attrs(&f.attrs) {
+            self.in_skipped += sections_of(f.block.to_token_stream(), self.name).len();
             return;
         }
         self.body(f.sig.ident.to_string(), &f.block);
@@ -441,10 +446,10 @@ pub fn c12globals(repo: &Path) -> Result<String, String> {
         };
         let (fns, cells) = if lockish {
             let f = &parsed.iter().find(|(r, _)| *r == st.file).unwrap().1;
-            let mut ff = FnFinder { name: &st.name, fns: vec![] };
+            let mut ff = FnFinder { name: &st.name, fns: vec![], in_skipped: 0 };
             ff.visit_file(f);
             // every occurrence of the name must be inside a function the scan sees
-            let in_fns: usize = ff.fns.iter().map(|(_, s)| s.len()).sum();
+            let in_fns: usize = ff.fns.iter().map(|(_, s)| s.len()).sum::<usize>() + ff.in_skipped;
             if in_fns != uses.len() {
                 return Err(format!("{}: {} of the {} occurrences of {} are outside the functions of the file (closure in a const / macro?)", st.file, uses.len() - in_fns.min(uses.len()), uses.len(), st.name));
             }
